@@ -446,6 +446,38 @@ theorem run_nodupX {w : World} (hw : Wf w) (hn : NodupInv w) (ops : List Op) (hd
   | nil => exact hn
   | cons op ops ih => exact ih (stepFull_wf hw op) (stepFull_nodupX hw hn op hd.1) hd.2
 
+/-- a plan that edits an existing structure: whatever is in the list afterwards was there before, is
+one of the atoms taken over uncopied, or is freshly allocated (generalises `execPlan_old_fresh`) -/
+theorem execPlan_old_mem (w : World) (p : Plan Nat) (h : Nat) (ht : p.tgt = .old h) :
+    ∀ a ∈ (w.execPlan p).1.atomsOf h, a ∈ w.atomsOf h ∨ a ∈ keptOf p.inc p.flags ∨ w.nextA ≤ a := by
+  obtain ⟨e1, _, _, _, e5, e6⟩ := prep_strus w p
+  obtain ⟨_, _, g3, _, _, g6⟩ := w1_frame w p
+  have hh : (w.prep p).2.1 = h := by rw [e5]; simp [hT, ht]
+  have hstr : (w.prep p).1.strus = w.strus := by rw [e1, g6, ht]
+  have hat : (w.prep p).1.atomsOf h = w.atomsOf h := by simp [atomsOf, hstr]
+  rw [execPlan_eq]
+  rcases hap : p.edit.apply ((w.prep p).1.atomsOf (w.prep p).2.1) (w.prep p).2.2 with e | ⟨new, ret⟩
+  · simp only [worldFinish, hat]
+    intro a ha; exact Or.inl ha
+  · simp only [worldFinish, hh]
+    intro a ha
+    have hsub : a ∈ new := by
+      simp only [atomsOf, setAtoms, getElem?_updAt, if_true] at ha
+      cases hg : (w.prep p).1.strus[h]? with
+      | none => simp [hg] at ha
+      | some t =>
+        simp only [hg, Option.map_some] at ha
+        split at ha
+        · exact ha
+        · simp at ha
+    rw [hh] at hap
+    rcases (Edit.apply_subset hap).1 a hsub with h1 | h1
+    · rw [hat] at h1; exact Or.inl h1
+    · rw [e6] at h1
+      rcases copySome_mem (w1 w p) p.inc p.flags a h1 with h2 | h2
+      · exact Or.inr (Or.inl h2)
+      · exact Or.inr (Or.inr (by omega))
+
 /-- the restricted side condition implies the full one (so `run_nodupX` subsumes `run_nodup`) -/
 theorem dupFreeX_of_dupFree {w : World} {op : Op} (h : DupFree w op) : DupFreeX w op := by
   simp only [DupFree, DupFreeX] at h ⊢
